@@ -87,3 +87,29 @@ func spec_recvOK(i int) bool { panic("spec") }
 //@ ensures [C13] spec_recvOK(old(fetched)) ==> tok == spec_recv(old(fetched))
 //@ ensures [C13] !spec_recvOK(old(fetched)) ==> tok.Kind == EOF
 //@ modifies fetched
+
+// C11: automatic token codes. After the declarations idMaxValue bounds every value in the table; every identifier
+// still numbered 0 then gets a fresh value above it, in increasing order - so automatic codes collide neither with
+// explicit / literal codes nor with each other nor with the end marker -1.
+//@ def tableOK(v *astDeclareVistor) = v.idMaxValue >= 2 &&
+//@     (forall k string :: has(v.idsymtabl, k) ==> v.idsymtabl[k] != nil && allocated(v.idsymtabl[k]) && v.idsymtabl[k].Value <= v.idMaxValue) &&
+//@     (forall k1, k2 string :: has(v.idsymtabl, k1) && has(v.idsymtabl, k2) && k1 != k2 ==> v.idsymtabl[k1] != v.idsymtabl[k2])
+
+//@ func (*astDeclareVistor).Process
+//@ props C11
+//@ requires v != nil && node != nil && tableOK(v) && iface_val(*node) != 0
+//@ may_panic ""
+//@ ensures [C11] tableOK(v)
+//@ loop 0: invariant [C11] tableOK(v)
+//@ loop 1: invariant [C11] tableOK(v)
+//@ loop 2: invariant [C11] tableOK(v)
+//@ loop 3: invariant [C11] tableOK(v)
+//@ loop 4: invariant [C11] tableOK(v)
+//@ loop 5: invariant [C11] tableOK(v) && before(v.idMaxValue) <= v.idMaxValue
+//@ loop 5: invariant [C11] forall k string :: (has(v.idsymtabl, k) <==> has(before(v.idsymtabl), k)) && v.idsymtabl[k] == before(v.idsymtabl[k])
+// values that were set by the declarations are kept; values handed out here are new, above the old maximum
+//@ loop 5: invariant [C11] forall k string :: has(v.idsymtabl, k) && before(v.idsymtabl[k].Value) != 0 ==> v.idsymtabl[k].Value == before(v.idsymtabl[k].Value)
+//@ loop 5: invariant [C11] forall k string :: has(v.idsymtabl, k) && before(v.idsymtabl[k].Value) == 0 && v.idsymtabl[k].Value != 0 ==> v.idsymtabl[k].Value > before(v.idMaxValue)
+//@ loop 5: invariant [C11] forall k1, k2 string :: has(v.idsymtabl, k1) && has(v.idsymtabl, k2) && k1 != k2 &&
+//@     before(v.idsymtabl[k1].Value) == 0 && v.idsymtabl[k1].Value != 0 && before(v.idsymtabl[k2].Value) == 0 && v.idsymtabl[k2].Value != 0 ==> v.idsymtabl[k1].Value != v.idsymtabl[k2].Value
+//@ loop 5: invariant [C11] forall j int :: 0 <= j && j < idx5 ==> v.idsymtabl[rng5[j]].Value != 0
